@@ -11,9 +11,9 @@
 (* fed with the recorded input only, and every recorded observation is     *)
 (* compared with the specification's value.  The pipeline is deterministic *)
 (* so the trace never branches; the first non-conforming step of a trace   *)
-(* is recorded in vBad (naming the clause) and printed, and the trace ends *)
-(* there.  A trace that runs to its end prints one DONE line with the      *)
-(* verdict of each end-of-trace clause.                                    *)
+(* is recorded in vBad (naming the clause) and printed.  Every trace runs   *)
+(* to its end and prints one DONE line with the verdict of each            *)
+(* end-of-trace clause.                                                    *)
 (***************************************************************************)
 EXTENDS Props
 Docs == JsonDeserialize("docs.json")
@@ -47,16 +47,17 @@ StepVerdict ==
    ELSE IF Table[vPs.st][r.hit].prods # d.events[k] THEN Mismatch("events", [spec |-> Table[vPs.st][r.hit].prods, impl |-> d.events[k]])
    ELSE <<>>
 
-Next == /\ vBad = <<>>
-        /\ GParseLine
-        /\ vBad' = StepVerdict
+\* the first non-conforming step is recorded (and printed); the trace nevertheless runs to its end so that the end-of-trace
+\* clauses are evaluated too (a disagreement in one clause must not hide the others, which may belong to other properties)
+Next == /\ GParseLine
+        /\ vBad' = IF vBad = <<>> THEN StepVerdict ELSE vBad
         /\ UNCHANGED vTid
 Spec == Init /\ [][Next]_tvars
 
 (***************************************************************************)
 (* End-of-trace clauses.                                                   *)
 (***************************************************************************)
-Finished == vPs.done /\ vBad = <<>>
+Finished == vPs.done
 Accepted == ~Rejected(vPs)
 SpecDoc == DocumentOf(vPs)
 SpecPickles == Compile(SpecDoc, Docs[vTid].uri, NidAfter(vPs))
